@@ -408,14 +408,14 @@ def run_real(case):
     cnt = {k: 0 for k in REQUIRED}
     cnt["real_backend_ops_checked"] = 0
     sigs = []
-    for mode in case["modes"]:
-        res = realsock.sync_timeout_ledger(mode)
+    for mode, cfg in [(m_, c_) for m_ in case["modes"] for c_ in realsock.SYNC_LEDGER_CONFIGS]:
+        res = realsock.sync_timeout_ledger(mode, cfg)
         cnt["real_backend_ops_checked"] += len(res["ledger"])
         cnt["o1_ops_checked"] += len(res["ledger"])
-        sigs.append(f"real|sync|{mode}|{len(res['ledger'])}")
-        ctx = {"mode": mode, "ledger": [list(x) for x in res["ledger"]], "timeouts": realsock.LEDGER_TIMEOUTS}
+        sigs.append(f"real|sync|{mode}|{cfg}|{len(res['ledger'])}")
+        ctx = {"mode": mode, "cfg": cfg, "ledger": [list(x) for x in res["ledger"]], "timeouts": realsock.SYNC_LEDGER_CONFIGS[cfg]}
         if res.get("status") != 200:
-            viol.append({"key": f"real-backend:request-failed:{mode}", "what": f"{res.get('exc')!r}", "detail": ctx})
+            viol.append({"key": f"real-backend:request-failed:{mode}:{cfg}", "what": f"{res.get('exc')!r}", "detail": ctx})
             continue
         kinds = {op for op, _ in res["ledger"]}
         need = {"connect"} | ({"tls.handshake", "tls.send", "tls.recv"} if mode.endswith("https") else {"raw.send", "raw.recv"})
@@ -423,9 +423,9 @@ def run_real(case):
             return {"viol": viol, "counters": cnt, "sigs": sigs, "sample": None,
                     "inconclusive": f"socket recorder saw {sorted(kinds)} in mode {mode}, expected at least {sorted(need)}"}
         for op, t, want in realsock.judge_timeout_ledger(res):
-            key = f"real-backend:wrong-timeout:{mode}:{op}"
+            key = f"real-backend:wrong-timeout:{mode}:{op}" + ("" if cfg == "distinct" else f":{cfg}")
             if not any(x["key"] == key for x in viol):
-                viol.append({"key": key, "what": f"{op} ran with timeout {t!r} on the socket, expected {want!r}", "detail": ctx})
+                viol.append({"key": key, "what": f"{op} ran with timeout {t!r} on the socket, expected {want!r} (timeouts {cfg})", "detail": ctx})
     return {"viol": viol, "counters": cnt, "sigs": sigs, "sample": None}
 
 
